@@ -1230,3 +1230,15 @@ T('parse-empty-separator-refused', ['C19'],
   (P, "    def try_parse(x: Any) -> Any:\n", "    if not sep:\n        raise ValueError('sep must not be empty')\n\n    def try_parse(x: Any) -> Any:\n"))
 B('parse-item-normalised-before-split', ['C19'], ['C19-R1'],
   (P, "        if isinstance(pair, str):\n            try:\n                k, v = pair.split(sep, 1)", "        if isinstance(pair, str):\n            pair = pair.strip()\n            try:\n                k, v = pair.split(sep, 1)"))
+
+# --- indirect breaks: the platform alias --------------------------------------------------------------
+B('lock-alias-arms-swapped', ['C02'], ['C02-R5'],
+  (F, "if msvcrt:\n    FileLock = WindowsFileLock  # type: ignore\nelif fcntl:\n    FileLock = UnixFileLock  # type: ignore\n",
+      "if fcntl:\n    FileLock = WindowsFileLock  # type: ignore\nelif msvcrt:\n    FileLock = UnixFileLock  # type: ignore\n"))
+B('lock-alias-fallback-is-unix', ['C02'], ['C02-R5'],
+  (F, "FileLock = _UnsupportedFileLock\n\nif msvcrt:", "FileLock = UnixFileLock\n\nif msvcrt:"))
+T('lock-alias-tests-is-not-none', ['C02'],
+  (F, "if msvcrt:\n    FileLock = WindowsFileLock  # type: ignore\nelif fcntl:\n    FileLock = UnixFileLock  # type: ignore\n",
+      "if msvcrt is not None:\n    FileLock = WindowsFileLock  # type: ignore\nelif fcntl is not None:\n    FileLock = UnixFileLock  # type: ignore\n"))
+B('buf-queue-bounded', ['C03'], ['C03-S8'],
+  (A, "        self.q: 'aio.Queue[AsyncIterable[T]]' = aio.Queue()\n", "        self.q: 'aio.Queue[AsyncIterable[T]]' = aio.Queue(maxsize=1024)\n"))
